@@ -42,28 +42,6 @@ def DimDesc.unitOrNone : DimDesc α → String
   | .set _ => "none"
   | .frame _ u => if u.isEmpty then "none" else u
 
-/-- scalar `positionToIndex(position, unit, match, dimension)` -/
-def posToIndex (d : DimDesc α) (p : α) (unit : String) (m : PositionMatch) : Except Err (Option Nat) :=
-  match d with
-  | .sampled si off du =>
-    if du.isNone && unit != "none" then .error .incompatibleDimensions else
-    match du with
-    | some dunit =>
-      if unit != "none" then
-        match siScaling (α := α) unit dunit with
-        | some f => .ok (getSampledIndex fuelDefault (mul p f) off si m)
-        | none => .error .incompatibleDimensions
-      else .ok (getSampledIndex fuelDefault p off si m)
-    | none => .ok (getSampledIndex fuelDefault p off si m)
-  | .range ticks du =>
-    if unit != "none" then
-      match siScaling (α := α) unit (du.getD "none") with
-      | some f => .ok (getIndex (mul p f) ticks m)
-      | none => .error .incompatibleDimensions
-    else .ok (getIndex p ticks m)
-  | .set n => .ok (getCountIndex p n m)
-  | .frame n _ => .ok (getCountIndex p n m)
-
 /-- `scalePositions` for one start/end/unit entry: the scaling factor, or the exception -/
 def scaleFor (unit dimUnit : String) : Except Err (Option α) :=
   if unit != "none" && dimUnit != "none" then
@@ -72,19 +50,63 @@ def scaleFor (unit dimUnit : String) : Except Err (Option α) :=
     | none => .error .incompatibleDimensions
   else .ok none
 
+/-- unit handling of the VECTOR overloads of positionToIndex (scalePositions): the factor applied to start and end -/
+def DimDesc.scale (d : DimDesc α) (unit : String) : Except Err (Option α) :=
+  match d with
+  | .sampled _ _ du => scaleFor unit (du.getD "none")
+  | .range _ du => scaleFor unit (du.getD "none")
+  | .set _ => .ok none
+  | .frame _ _ => .ok none
+
+/-- unit handling of the SCALAR overloads of positionToIndex (they differ from the vector ones) -/
+def DimDesc.scaleScalar (d : DimDesc α) (unit : String) : Except Err (Option α) :=
+  match d with
+  | .sampled _ _ du =>
+    if du.isNone && unit != "none" then .error .incompatibleDimensions else
+    match du with
+    | some dunit =>
+      if unit != "none" then
+        match siScaling (α := α) unit dunit with
+        | some f => .ok (some f)
+        | none => .error .incompatibleDimensions
+      else .ok none
+    | none => .ok none
+  | .range _ du =>
+    if unit != "none" then
+      match siScaling (α := α) unit (du.getD "none") with
+      | some f => .ok (some f)
+      | none => .error .incompatibleDimensions
+    else .ok none
+  | .set _ => .ok none
+  | .frame _ _ => .ok none
+
+/-- `dimension.indexOf(position, match)` -/
+def DimDesc.index (d : DimDesc α) (x : α) (m : PositionMatch) : Option Nat :=
+  match d with
+  | .sampled si off _ => getSampledIndex fuelDefault x off si m
+  | .range ticks _ => getIndex x ticks m
+  | .set n => getCountIndex x n m
+  | .frame n _ => getCountIndex x n m
+
+/-- `dimension.indexOf(start, end, match)` -/
+def DimDesc.pair (d : DimDesc α) (s e : α) (rm : RangeMatch) : Option (Nat × Nat) :=
+  match d with
+  | .sampled si off _ => sampledPair fuelDefault off si s e rm
+  | .range ticks _ => rangePair ticks s e rm
+  | .set n => countPair n s e rm
+  | .frame n _ => countPair n s e rm
+
+/-- scalar `positionToIndex(position, unit, match, dimension)` -/
+def posToIndex (d : DimDesc α) (p : α) (unit : String) (m : PositionMatch) : Except Err (Option Nat) :=
+  match d.scaleScalar unit with
+  | .ok k => .ok (d.index (applyScale k p) m)
+  | .error x => .error x
+
 /-- vector `positionToIndex({s}, {e}, {unit}, match, dimension)[0]` -/
 def rangeToIndex (d : DimDesc α) (s e : α) (unit : String) (rm : RangeMatch) : Except Err (Option (Nat × Nat)) :=
-  match d with
-  | .sampled si off du =>
-    match scaleFor (α := α) unit (du.getD "none") with
-    | .ok k => .ok (sampledPair fuelDefault off si (applyScale k s) (applyScale k e) rm)
-    | .error x => .error x
-  | .range ticks du =>
-    match scaleFor (α := α) unit (du.getD "none") with
-    | .ok k => .ok (rangePair ticks (applyScale k s) (applyScale k e) rm)
-    | .error x => .error x
-  | .set n => .ok (countPair n s e rm)
-  | .frame n _ => .ok (countPair n s e rm)
+  match d.scale unit with
+  | .ok k => .ok (d.pair (applyScale k s) (applyScale k e) rm)
+  | .error x => .error x
 
 /-- `getMaxExtent(dim, max_index)`: (first coordinate, last coordinate); `tickAt` may throw -/
 def maxExtent (d : DimDesc α) (maxIndex : Nat) : Except Err (α × α) :=
@@ -136,40 +158,48 @@ structure TagIn (α : Type) where
 def padTo {β} (n : Nat) (l : List β) (gen : Nat → β) : List β :=
   (List.range n).map fun i => match l[i]? with | some x => x | none => gen i
 
+def TagIn.noExtent (t : TagIn α) : Bool := t.extent.length == 0
+/-- `if (extent.size() == 0) match = RangeMatch::Inclusive` -/
+def TagIn.effRm (t : TagIn α) : RangeMatch := if t.noExtent then .inclusive else t.rm
+/-- number of leading dimensions the tag specifies -/
+def TagIn.specified (t : TagIn α) : Nat := min t.position.length t.dims.length
+/-- the unit used for dimension i: the tag's, "none" when the tag has no units at all, the dimension's own when the list is short -/
+def TagIn.unitAt (t : TagIn α) (i : Nat) (d : DimDesc α) : String :=
+  let units0 : List String := if t.units.length == 0 then List.replicate t.dims.length "none" else t.units
+  match units0[i]? with | some u => u | none => d.unitOrNone
+/-- the extent entry of dimension i (0.0 when the tag has no extent) -/
+def TagIn.extentAt (t : TagIn α) (i : Nat) : α := if t.noExtent then zero else (t.extent[i]?).getD zero
+
+/-- one iteration of the loop of `getOffsetAndCount(Tag …)` -/
+def TagIn.cell (t : TagIn α) (maxExt : List (α × α)) (i : Nat) : Except Err (Nat × Nat) :=
+  match t.dims[i]? with
+  | none => .error .stdOutOfRange
+  | some d =>
+    if i < t.specified then
+      match t.position[i]? with
+      | some p => dimOffsetCount d p (add p (t.extentAt i)) (beq (t.extentAt i) zero) (t.unitAt i d) t.effRm
+      | none => .error .stdOutOfRange
+    else
+      match maxExt[i]? with
+      | some (first, last) => dimOffsetCount d first last (beq (sub last first) zero) (t.unitAt i d) t.effRm
+      | none => .error .stdOutOfRange
+
+/-- `maximumExtents(array)`: evaluated only when padding is needed; it can throw -/
+def TagIn.maxExt (t : TagIn α) : Except Err (List (α × α)) :=
+  if t.position.length < t.dims.length then
+    mapExcept (fun i =>
+      match t.dims[i]?, t.shape[i]? with
+      | some d, some n => maxExtent d (n - 1)
+      | _, _ => .error .stdOutOfRange) (List.range t.dims.length)
+  else .ok []
+
 /-- `getOffsetAndCount(const Tag &, const DataArray &, offset, count, match)` -/
 def tagOffsetCount (t : TagIn α) : Except Err (List Nat × List Nat) :=
-  let dimCount := t.dims.length
   if t.extent.length > 0 && t.extent.length != t.position.length then .error .incompatibleDimensions else
-  -- maximumExtents(array) is evaluated only when padding is needed; it can throw
-  let maxExt : Except Err (List (α × α)) :=
-    if t.position.length < dimCount then
-      mapExcept (fun i =>
-        match t.dims[i]?, t.shape[i]? with
-        | some d, some n => maxExtent d (n - 1)
-        | _, _ => .error .stdOutOfRange) (List.range dimCount)
-    else .ok []
-  match maxExt with
+  match t.maxExt with
   | .error x => .error x
   | .ok maxExt =>
-    let noExtent := t.extent.length == 0
-    let rm := if noExtent then RangeMatch.inclusive else t.rm
-    let specified := min t.position.length dimCount
-    let units0 : List String := if t.units.length == 0 then List.replicate dimCount "none" else t.units
-    match mapExcept (fun i =>
-        match t.dims[i]? with
-        | none => .error .stdOutOfRange
-        | some d =>
-          let unit := match units0[i]? with | some u => u | none => d.unitOrNone
-          if i < specified then
-            match t.position[i]? with
-            | some p =>
-              let e : α := if noExtent then zero else (t.extent[i]?).getD zero
-              dimOffsetCount d p (add p e) (beq e zero) unit rm
-            | none => .error .stdOutOfRange
-          else
-            match maxExt[i]? with
-            | some (first, last) => dimOffsetCount d first last (beq (sub last first) zero) unit rm
-            | none => .error .stdOutOfRange) (List.range dimCount) with
+    match mapExcept (t.cell maxExt) (List.range t.dims.length) with
     | .error x => .error x
     | .ok cells => .ok (cells.map (·.1), cells.map (·.2))
 
@@ -232,55 +262,74 @@ def maximumExtents (dims : List (DimDesc α)) (shape : List Nat) : Except Err (L
     | some d, some n => maxExtent d (n - 1)
     | _, _ => .error .stdOutOfRange) (List.range dims.length)
 
+/-- `units` padded with "none" up to the number of dimensions -/
+def MTagIn.unitsPadded (t : MTagIn α) : List String :=
+  t.units ++ List.replicate (t.dims.length - t.units.length) "none"
+
+/-- the row read from positions / extents for one index: the whole row for n-d data, one entry for 1-d data -/
+def MTagIn.rowOf (t : MTagIn α) (rows : List (List α)) (idx : Nat) : List α :=
+  match rows[idx]? with
+  | some r => if t.dims.length > 1 then r else r.take 1
+  | none => []
+
+def MTagIn.posRow (t : MTagIn α) (idx : Nat) : List α := t.rowOf t.positions idx
+def MTagIn.extRow (t : MTagIn α) (idx : Nat) : List α :=
+  match t.extents with
+  | some ex => t.rowOf ex idx
+  | none => (t.posRow idx).map fun _ => zero
+
+/-- one (requested index, dimension) cell of the assembly loop -/
+def MTagIn.cell (t : MTagIn α) (maxExt : List (α × α)) (idx i : Nat) : Except Err (Nat × Nat) :=
+  match t.dims[i]?, t.unitsPadded[i]? with
+  | some d, some u =>
+    if i < min (t.posRow idx).length t.dims.length then
+      match (t.posRow idx)[i]?, (t.extRow idx)[i]? with
+      | some p, some e => mtagDim d p (add p e) u t.rm
+      | _, _ => .error .stdOutOfRange
+    else
+      match maxExt[i]? with
+      | some (first, last) => mtagDim d first last u t.rm
+      | none => .error .stdOutOfRange
+  | _, _ => .error .stdOutOfRange
+
+/-- offsets and counts for one requested position index -/
+def MTagIn.row (t : MTagIn α) (maxExt : List (α × α)) (idx : Nat) : Except Err (List Nat × List Nat) :=
+  match mapExcept (t.cell maxExt idx) (List.range t.dims.length) with
+  | .error x => .error x
+  | .ok cells => .ok (cells.map (·.1), cells.map (·.2))
+
+/-- `maximumExtents(array)` (skipped for an array without dimension descriptors) -/
+def MTagIn.maxExt0 (t : MTagIn α) : Except Err (List (α × α)) :=
+  if t.dims.length > 0 then maximumExtents t.dims t.shape else .ok []
+/-- `max_index >= positions.dataExtent()[0] || (extents && max_index >= extents.dataExtent()[0])` -/
+def MTagIn.indexBad (t : MTagIn α) (maxIndex : Nat) : Bool :=
+  maxIndex ≥ t.positions.length || (match t.extents with | some ex => maxIndex ≥ ex.length | none => false)
+/-- `position_size[dim_index]` with dim_index = 1 for multi-dimensional data throws for 1-d positions -/
+def MTagIn.rankBad (t : MTagIn α) : Bool := t.dims.length > 1 && t.posRank < 2
+/-- vector positionToIndex per dimension: only unit errors can arise there -/
+def MTagIn.unitCheck (t : MTagIn α) : Except Err (List (Option α)) :=
+  mapExcept (fun i =>
+    match t.dims[i]?, t.unitsPadded[i]? with
+    | some d, some u => d.scale u
+    | _, _ => .error .stdOutOfRange) (List.range t.dims.length)
+
+/-- everything `getOffsetAndCount(MultiTag …)` checks or computes before the assembly loop -/
+def MTagIn.prepare (t : MTagIn α) (maxIndex : Nat) : Except Err (List (α × α)) :=
+  match t.maxExt0 with
+  | .error x => .error x
+  | .ok maxExt =>
+    if t.indexBad maxIndex then .error .outOfBounds else
+    if t.rankBad then .error .stdOutOfRange else
+    match t.unitCheck with
+    | .error x => .error x
+    | .ok _ => .ok maxExt
+
 /-- `getOffsetAndCount(const MultiTag &, const DataArray &, indices, offsets, counts, match)`;
     `indices` must be non-empty (the C++ dereferences `max_element` of it) -/
 def mtagOffsetCount (t : MTagIn α) (indices : List Nat) : Except Err (List (List Nat × List Nat)) :=
-  let dimCount := t.dims.length
-  let units := t.units ++ List.replicate (dimCount - t.units.length) "none"
-  match (if dimCount > 0 then maximumExtents t.dims t.shape else .ok []) with
+  match t.prepare (indices.foldl max 0) with
   | .error x => .error x
-  | .ok maxExt =>
-    let n := t.positions.length
-    let maxIndex := indices.foldl max 0
-    if maxIndex ≥ n || (match t.extents with | some ex => maxIndex ≥ ex.length | none => false) then .error .outOfBounds else
-    -- `position_size[dim_index]` with dim_index = 1 for multi-dimensional data
-    if dimCount > 1 && t.posRank < 2 then .error .stdOutOfRange else
-    -- the row read from positions / extents for one index: the whole row for n-d data, one entry for 1-d data
-    let rowOf (rows : List (List α)) (idx : Nat) : List α :=
-      match rows[idx]? with
-      | some r => if dimCount > 1 then r else r.take 1
-      | none => []
-    -- phase 1: vector positionToIndex per dimension (only unit errors can arise here)
-    match mapExcept (fun i =>
-        match t.dims[i]?, units[i]? with
-        | some d, some u => (match d with
-            | .sampled _ _ du => scaleFor (α := α) u (du.getD "none")
-            | .range _ du => scaleFor (α := α) u (du.getD "none")
-            | _ => .ok none)
-        | _, _ => .error .stdOutOfRange) (List.range dimCount) with
-    | .error x => .error x
-    | .ok _ =>
-      -- phase 2: assembly per requested index, per dimension
-      mapExcept (fun idx =>
-        let offset := rowOf t.positions idx
-        let extent := match t.extents with
-          | some ex => rowOf ex idx
-          | none => offset.map fun _ => zero
-        let specified := min offset.length dimCount
-        match mapExcept (fun i =>
-            match t.dims[i]?, units[i]? with
-            | some d, some u =>
-              if i < specified then
-                match offset[i]?, extent[i]? with
-                | some p, some e => mtagDim d p (add p e) u t.rm
-                | _, _ => .error .stdOutOfRange
-              else
-                match maxExt[i]? with
-                | some (first, last) => mtagDim d first last u t.rm
-                | none => .error .stdOutOfRange
-            | _, _ => .error .stdOutOfRange) (List.range dimCount) with
-        | .error x => .error x
-        | .ok cells => .ok (cells.map (·.1), cells.map (·.2))) indices
+  | .ok maxExt => mapExcept (t.row maxExt) indices
 
 /-- `taggedData(MultiTag, indices, array, match)`: one region per index -/
 def mtagRegions (t : MTagIn α) (indices : List Nat) : Except Err (List (List Nat × List Nat)) :=
@@ -365,31 +414,36 @@ def fillEnd (d : DimDesc α) (n : Nat) : Except Err α :=
   | .set _ => .ok (ofNat (n - 1))
   | .frame _ _ => .ok (ofNat (n - 1))
 
+def SliceIn.needFill (t : SliceIn α) : Bool :=
+  t.starts.length < t.dims.length || t.ends.length < t.dims.length || t.units.length < t.dims.length
+
+/-- what the loop of `dataSlice` works with in dimension i after `fillPositionsExtentsAndUnits`:
+    (descriptor, start, end, unit, match).  Defaults are computed only when some vector is short, and only
+    where an entry is missing; a filled-in end is matched inclusively. -/
+def SliceIn.arg (t : SliceIn α) (i : Nat) : Except Err (DimDesc α × α × α × String × RangeMatch) :=
+  match t.dims[i]? with
+  | none => .error .stdOutOfRange
+  | some d =>
+    let unit := match t.units[i]? with | some u => u | none => d.unitOrNone
+    let n := (t.shape[i]?).getD 0
+    let sR : Except Err α := match t.starts[i]? with
+      | some s => .ok s
+      | none => if t.needFill then fillStart d else .error .stdOutOfRange
+    match sR with
+    | .error x => .error x
+    | .ok s =>
+      let eR : Except Err α := match t.ends[i]? with
+        | some e => .ok e
+        | none => if t.needFill then fillEnd d n else .error .stdOutOfRange
+      match eR with
+      | .error x => .error x
+      | .ok e => .ok (d, s, e, unit, if (t.ends[i]?).isSome then t.rm else RangeMatch.inclusive)
+
 /-- `util::dataSlice(array, start, end, units, match)` -/
 def sliceRegion (t : SliceIn α) : Except Err (List Nat × List Nat) :=
   let dimCount := t.dims.length
   if t.starts.length > dimCount || t.ends.length > dimCount || t.units.length > dimCount then .error .stdInvalidArgument else
-  let needFill := t.starts.length < dimCount || t.ends.length < dimCount || t.units.length < dimCount
-  match mapExcept (fun i =>
-      match t.dims[i]? with
-      | none => .error .stdOutOfRange
-      | some d =>
-        let unit := match t.units[i]? with | some u => u | none => d.unitOrNone
-        -- defaults are only computed when some vector is short, and only where an entry is missing
-        let n := (t.shape[i]?).getD 0
-        let sR : Except Err α := match t.starts[i]? with
-          | some s => .ok s
-          | none => if needFill then fillStart d else .error .stdOutOfRange
-        match sR with
-        | .error x => .error x
-        | .ok s =>
-          let eR : Except Err α := match t.ends[i]? with
-            | some e => .ok e
-            | none => if needFill then fillEnd d n else .error .stdOutOfRange
-          match eR with
-          | .error x => .error x
-          | .ok e => .ok (d, s, e, unit, if (t.ends[i]?).isSome then t.rm else RangeMatch.inclusive))
-      (List.range dimCount) with
+  match mapExcept t.arg (List.range dimCount) with
   | .error x => .error x
   | .ok cells =>
     match mapExcept (fun (c : DimDesc α × α × α × String × RangeMatch) => sliceDim c.1 c.2.1 c.2.2.1 c.2.2.2.1 c.2.2.2.2) cells with
